@@ -719,6 +719,20 @@ fn replay_case(case: &Value) -> Value {
         }
     }
 
+    // ---- growth: next headers sciparse has no model for (extension headers 43 / 201, TCP, ...) must classify as
+    // `Other` carrying the unchanged raw packet (conformance only)
+    if let (Pkt::Raw(p), true) = (&pkt, rep) {
+        let nh = u(&m["nh"]);
+        if nh != 17 && nh != 202 {
+            use sciparse::packet::classify::ClassifiedPacket;
+            match catch(|| p.clone().try_classify()) {
+                Ok(Ok(ClassifiedPacket::Other(q))) if &q == p => {}
+                Ok(other) => drift.push(format!("try_classify of a raw packet with next header {nh}: {}", match other { Ok(_) => "not Other / packet changed".to_string(), Err(e) => format!("Err({e})") })),
+                Err(msg) => pv(&mut pvs, "Panic:try_classify:raw".into(), format!("try_classify panicked on a raw packet with next header {nh}: {msg}")),
+            }
+        }
+    }
+
     // ---- the second encoder entry point: into_raw() encodes the payload on its own, the raw packet is
     // then encoded like any other; the bytes must be the same and a model without a wire form must
     // still be rejected on this route
